@@ -60,6 +60,9 @@ def answers(r, peer, k, ctx):
     out.append(("tag_only", plain_apdu(15, data=cc.octet(good[-12:])), False))
     out.append(("proof_with_filler", plain_apdu(15, data=cc.octet(good[:5] + b"\x00" * 7 + good[5:])), None))   # bytes between counter and tag are ignored: recomputed
     out.append(("encrypting_security_control", plain_apdu(15, data=cc.octet(bytes([good[0] | 0x20]) + good[1:])), False))
+    out.append(("exception_response", plain_apdu(18), False))
+    out.append(("service_error", plain_apdu(19), False))
+    out.append(("data_notification", plain_apdu(17), False))
     out.append(("get_response", plain_apdu(8), False))
     out.append(("set_response", plain_apdu(13), False))
     return out
@@ -96,15 +99,16 @@ def run(ctx):
         head = ops[:4]                                           # AARQ, AARE, reply, ACTION request
         base = cc.run_impl(k, c, head)
         mtitle = base[-1][1][3]
+        answer_ic = peer.ic                    # every script is a fresh connection: the meter's answer always carries this counter
         for label, plain, ready in answers(r, peer, k, ctx):
-            ans = peer.ggc(plain)
+            ans = peer.ggc(plain, ic=answer_ic)
             s = [k, c, head + [[1, ans], [0, cc.get_v()]]]
             scripts.append(s)
             meta.append((label, plain, ready, k, mtitle, base))
         # orders: service requests and the reply at every point of the exchange
         for j in range(0, 5):
             for extra in ([0, cc.get_v()], [0, cc.set_v()], [0, cc.action_v(b"\x09\x01\x00")], [2], [0, cc.next_v(1)]):
-                full = head + [[1, peer.ggc(__import__("props.dlms_common", fromlist=["plain_apdu"]).plain_apdu(15, data=cc.octet(peer.hls_proof(client_challenge=ch_c))))]]
+                full = head + [[1, peer.ggc(__import__("props.dlms_common", fromlist=["plain_apdu"]).plain_apdu(15, data=cc.octet(peer.hls_proof(client_challenge=ch_c))), ic=answer_ic)]]
                 scripts.append([k, c, full[:j] + [extra] + full[j:]])
                 meta.append((f"order_{j}", None, None, k, mtitle, base))
     ctx.corr([("dlms_script", s) for s in scripts], impl, "hls_exchanges", decisive=lambda op, a: True, skip_model=cc.unmodelled)
